@@ -74,6 +74,14 @@ T = {
    "the loading error otherwise; loaded modules never reach the disassembler's index panics or debug assertion. The real rspirv-dis binary is run on "
    "generated, corrupted, truncated (incl. non-word-aligned) and random files and compared byte for byte with the library result; the token-level "
    "disassembly model is compared with the real text in C07. Process-level plumbing (stdout, exit code) is observed, not proved."),
+ "C17": ("Rocq/Coq: reflection functions translated from the source with theorems for every value + T-dump cross-check + exhaustive mask enumeration",
+   "The bodies of additional_operands / required_capabilities / required_extensions / id_ref_any(_mut) are translated from dr/autogen_operand.rs on every "
+   "run (exact templates; any other shape is a broken obligation) and interpreted by a Coq model (Model/OperandReflect). Proved for EVERY value v "
+   "(Proofs/OperandReflectFacts): the extra operands a mask reports are, as a multiset, the union over its set declared bits, and a permutation of the kinds "
+   "the parser consumes after v (equal sequences for enumerants); required capabilities / extensions are exactly the union over the set bits (resp. the "
+   "row of the enumerant) of the reference grammar's lists; an operand reports an id iff it is one of the three id kinds and rewriting it changes exactly "
+   "that word of the assembled instruction. The translated model is cross-checked in Coq against a dump of the compiled functions on every enumerant and "
+   "every mask constant; all bit combinations are additionally enumerated dynamically. Known finding F20."),
  "C18": ("Rocq/Coq: executable lift model over source-translated arms with structure theorems + differential check of the real lifter",
    "Coq model of LiftContext::convert interpreting the lift arms translated from autogen_context.rs (Model/Lift, Proofs/LiftFacts): on the subset lifting "
    "succeeds, preserves version/capabilities/memory model, yields one type/constant/op per declaration in order with operands carried positionally and "
